@@ -484,22 +484,23 @@ func (s *recordingSpan) End(options ...trace.SpanEndOption) {
 		s.addEvent(semconv.ExceptionEventName, opts...)
 	}
 
-	if s.executionTracerTaskEnd != nil {
-		s.mu.Unlock()
-		verifPoint("span.end.checked", s)
-		s.executionTracerTaskEnd()
-		verifPoint("span.end.taskended", s)
-		s.mu.Lock()
-	}
-
 	// Setting endTime to non-zero marks the span as ended and not recording.
+	// This has to happen in the critical section of the isRecording check
+	// above: concurrent calls to End must not both pass that check.
 	if config.Timestamp().IsZero() {
 		s.endTime = et
 	} else {
 		s.endTime = config.Timestamp()
 	}
+	taskEnd := s.executionTracerTaskEnd
 	s.mu.Unlock()
 	verifPoint("span.end.marked", s)
+
+	if taskEnd != nil {
+		// Do not hold the lock while ending the execution tracer task.
+		taskEnd()
+		verifPoint("span.end.taskended", s)
+	}
 
 	sps := s.tracer.provider.getSpanProcessors()
 	if len(sps) == 0 {
